@@ -578,12 +578,22 @@ def kh_reference(text: str, host: str, addr: str, port: Optional[int]):
     return results, labels
 
 
+_REUSED: Dict[str, Any] = {}
+
+
 def kh_query(text: str, host: str, addr: str, port: Optional[int],
              via: str = 'bytes'):
     """Run asyncssh; returns {class: set(key idx)}"""
 
     if via == 'object':
         res = asyncssh.import_known_hosts(text).match(host, addr, port)
+    elif via == 'reused':
+        # the documented way to avoid re-parsing a large file: one
+        # SSHKnownHosts object answering every lookup of the case
+        if _REUSED.get('text') != text:
+            _REUSED['text'] = text
+            _REUSED['obj'] = asyncssh.import_known_hosts(text)
+        res = _REUSED['obj'].match(host, addr, port)
     else:
         res = asyncssh.match_known_hosts(text.encode('utf-8'), host, addr,
                                          port)
@@ -812,6 +822,25 @@ def run_kh_reference(case) -> CaseResult:
         _check_kh(lines, text, host2, addr2, port2, via, extra)
         labels |= extra & (set(AMBIGUITIES) | {'port-direct',
                                                'port-fallback'})
+
+    if via == 'reused':
+        # the answers of one object must not depend on what it was asked
+        # before: the same name at other addresses / ports, then everything
+        # once more
+        labels.add('object-reused')
+        _REUSED.pop('text', None)
+        queries = [(host, addr, port)] + [tuple(q) for q in
+                                          case.get('more', ())]
+        # (a host that is itself an address is only ever asked about with
+        # that address: the generator's input domain)
+        variants = [(h, a2, p2) for h, _, _ in queries[:2]
+                    if parse_ip(h) is None
+                    for a2 in [addr] + ADDRS[:2] for p2 in (None, port)]
+
+        for q in queries + variants + queries[::-1]:
+            _check_kh(lines, text, q[0], q[1], q[2], via, set())
+
+        _REUSED.clear()
 
     if port:
         labels.add('port-query')
@@ -1455,6 +1484,10 @@ COMMENTS = ['root@host', 'a comment with  spaces', 'quote"here', "it's",
             '#hash', '!*,?', 'x=y,z', '@cert-authority', 'ssh-ed25519 AAAA',
             'c']
 NON_ASCII_COMMENTS = ['jürgen@höst', '鍵', 'café laptop']
+# characters str.splitlines() takes for line ends; the file formats know
+# only the newline (sshd(8), "one line per key")
+SEPARATOR_COMMENTS = ['page\x0cbreak', 'v\x0bt', 'fs\x1cgs\x1drs\x1e',
+                      'nel\x85x', 'ls\u2028ps\u2029x']
 
 
 def net_of(addr: str, plen: int) -> str:
@@ -1605,6 +1638,9 @@ def _comment(draw, non_ascii: bool):
     if non_ascii and r == 9:
         return draw(S(NON_ASCII_COMMENTS))
 
+    if r == 8 and draw(I(0, 2)) == 0:
+        return draw(S(SEPARATOR_COMMENTS))
+
     return draw(S(COMMENTS))
 
 
@@ -1689,7 +1725,7 @@ def kh_reference_strategy(tier: str):
                 sorted(set(some(draw, lambda d: d(I(0, 5)), 0, 3)))]
         return {'lines': lines, 'host': host, 'addr': addr, 'port': port,
                 'more': more, 'nl': draw(S([True, True, False])),
-                'via': draw(S(['bytes', 'bytes', 'object']))}
+                'via': draw(S(['bytes', 'bytes', 'object', 'reused', 'reused']))}
 
     return build()
 
@@ -1910,6 +1946,7 @@ FAMILIES = [
                              'port-direct', 'port-fallback',
                              'marker:cert-authority', 'marker:revoked',
                              'cidr-host-bits:would-cover-query',
+                             'object-reused',
                              'comment', 'blank'] + _DMG_KINDS}),
     Family('kh_keygen', run_kh_keygen, strategy=kh_keygen_strategy,
            budget={'quick': 320, 'thorough': 2000},
